@@ -14,12 +14,41 @@ def intArg (s : String) : Option Int :=
   | some n => if toString n == s then some n else none
 
 /-- an instant of the years 0..9999, as true nanoseconds since the epoch -/
-def timeArg (s : String) : Option Int :=
+def baseTimeArg (s : String) : Option Int :=
   match intArg s with
   | none => none
   | some n =>
     let sec := n.ediv 1000000000
     if -62167219200 ≤ sec ∧ sec ≤ 253402300799 then some n else none
+
+/-- a time argument `<nanos>[@<Z|offset minutes>[f<digit>]]`.  The presentation only says how the
+harness spells the instant in the blob (zone offset, fractional zeros); the model orders by instant,
+so it is validated (the local wall clock must keep a 4-digit year) and dropped. -/
+def timeArg (s : String) : Option Int :=
+  match s.splitOn "@" with
+  | [b] => baseTimeArg b
+  | [b, pres] =>
+    match baseTimeArg b with
+    | none => none
+    | some n =>
+      let parts := pres.splitOn "f"
+      let zone? : Option Int :=
+        match parts with
+        | [z] | [z, _] =>
+          if z == "Z" then some 0
+          else (intArg z).bind (fun o => if -840 ≤ o ∧ o ≤ 840 then some o else none)
+        | _ => none
+      let kOk : Bool :=
+        match parts with
+        | [_] => true
+        | [_, k] => k.length == 1 && k.toList.all Char.isDigit
+        | _ => false
+      match zone?, kOk with
+      | some off, true =>
+        let lsec := n.ediv 1000000000 + off * 60
+        if -62167219200 ≤ lsec ∧ lsec ≤ 253402300799 then some n else none
+      | _, _ => none
+  | _ => none
 
 /-- a claim date: not the zero Time, not within the first second of 1970 (`Time3339.IsAnyZero`) -/
 def claimDateArg (s : String) : Option Int :=
